@@ -167,3 +167,45 @@ Example C06_ex_hyps : has_type c06_t1 c06_v1 && has_type c06_t2 c06_v2 = true.
 Proof. vm_compute. reflexivity. Qed.
 
 (* ===== end of the spec-ledger block ===== *)
+
+(* ===== facts imported from the instruction-level and runtime properties (not re-proved here) ===== *)
+(** The differential leg of C06 relies on three facts that are theorems elsewhere in this development; they are restated
+    here (closed by [exact]) so that the evidence of C06 names exactly what it stands on:
+    - whether a post-return function is generated at all is decided exactly by "the result type can hold heap data"
+      (C03, about the model [Abi/Gen.v] of crates/core/src/abi.rs, tied token-for-token to the real generator);
+    - a scratch buffer owned by a [Cleanup] is released by exactly one [dealloc] with the layout it was allocated with, and
+      [cabi_dealloc] frees iff the size is non-zero (C24, about the model [Core/Realloc.v] of crates/guest-rust/src/rt/mod.rs
+      and of the [cabi_dealloc] text the Rust generator emits). *)
+From WB Require Abi.Sig Abi.Gen Abi.Check Abi.DeallocProofs Core.Realloc Core.ReallocSpec Core.ReallocProofs.
+
+Section ImportedFromC03.
+  Import WB.Abi.Sig WB.Abi.Gen WB.Abi.Check WB.Abi.DeallocProofs.
+  Theorem C06_post_return_generated_iff_heap : forall fn,
+    guest_export_needs_post_return fn = match f_result fn with Some t => has_heap t | None => false end.
+  Proof. exact post_return_iff_heap. Qed.
+End ImportedFromC03.
+
+Section ImportedFromC24.
+  Import WB.Core.Realloc WB.Core.ReallocSpec WB.Core.ReallocProofs.
+  Theorem C06_scratch_buffer_freed_exactly_once :
+    forall (A : allocator) (debug : bool), contract A ->
+    forall h0 : heap A, wf_blocks (live A h0) ->
+    forall ops, history_consistent A debug (init A h0) ops ->
+    forall s i x s',
+      In (s, ODrop i, x, s') (trace A debug (init A h0) ops) ->
+      exists c, entry (st_hs s) i = Some c /\ drop_post A s i c x s'.
+  Proof. exact scratch_drop. Qed.
+
+  Theorem C06_dealloc_frees_iff_nonzero :
+    forall (A : allocator) (debug : bool), contract A ->
+    forall h0 : heap A, wf_blocks (live A h0) ->
+    forall ops, history_consistent A debug (init A h0) ops ->
+    forall s pr size align x s',
+      In (s, ODealloc pr size align, x, s') (trace A debug (init A h0) ops) ->
+      dealloc_post A s pr size align x s'.
+  Proof. exact dealloc_frees_iff_nonzero. Qed.
+End ImportedFromC24.
+
+Print Assumptions C06_post_return_generated_iff_heap.
+Print Assumptions C06_scratch_buffer_freed_exactly_once.
+Print Assumptions C06_dealloc_frees_iff_nonzero.
